@@ -57,7 +57,11 @@ def check(run):
             run.check(bool(calls) and q.on_all_paths(g, calls), 'R8', 'acceptor-close-delegates', A + '::close()', g.loc(), 'acceptor::close() does not delegate to close(ec)', 'delegates to close(ec)')
 
     run.clause('one response per parsed request: after parse_request every normal path of on_read starts exactly one async_write, except the stall path (none)')
-    orr = fx.fn1(H + '::on_read')
+    on_read = fx.fn1(H + '::on_read')
+    pfs = [f_ for f_ in fx.repo_functions() if f_.cls == H and any(q.callee_name(c) == 'sim::parse_request' for c in f_.calls())]
+    if len(pfs) != 1:
+        run.broke('expected exactly one http_server member function calling parse_request, found %d' % len(pfs))
+    orr = pfs[0] if pfs else on_read
     run.touch(orr)
     parse = [c for c in orr.calls() if q.callee_name(c) == 'sim::parse_request']
     writes = [c for c in orr.calls() if q.callee_name(c) == 'boost::asio::async_write']
@@ -80,12 +84,29 @@ def check(run):
         g_ok = all(any(q.cmp_atom(a) and q.render(orr, q.cmp_atom(a)[1]) == 'req_len' and q.cmp_atom(a)[0] == '<' and p for a, p in q.guards_at(orr, c)) for c in nl)
         run.check(bool(nl) and g_ok, 'R5', 'incomplete-reads-more', H + '::on_read', orr.loc(), 'an incomplete request does not lead to another read', 'req_len < 0 -> read()')
 
+    run.clause('any segmentation: the blank-line search covers every byte received so far')
+    frl = [c for c in orr.calls() if q.callee_name(c) == 'sim::find_request_len']
+    if not frl:
+        run.broke('find_request_len call not found next to parse_request')
+    for c in frl:
+        sub = q.const_local_subst(orr)
+        a0, a1 = q.linform(orr, c['args'][0], sub), q.linform(orr, c['args'][1], sub)
+        full = a0 == ({'m_recv_buffer.data()': 1}, 0) and a1 == ({'m_bytes_used': 1}, 0)
+        if full:
+            run.ok('R12', 'search-covers-buffer', orr.norm, orr.loc(c), 'find_request_len(m_recv_buffer.data(), m_bytes_used)')
+        elif a0 is not None and a0[1] <= -3:
+            run.unrecognised('R12', 'search-covers-buffer', orr.norm, orr.loc(c), 'search starts at an offset that backs up by %d bytes: idiom not recognised' % -a0[1])
+        else:
+            run.violation('R12', 'search-covers-buffer', orr.norm, orr.loc(c),
+                          'the search for the blank line starts at %s with length %s instead of covering every byte received so far: a terminator that straddles two reads (cut 1-3 bytes before the end of the header) is never found, that request is never answered and - one connection at a time - nobody else is served' % (q.render(orr, c['args'][0]), q.render(orr, c['args'][1])))
+
     run.clause('pipelining: after a keep-alive response the buffer is re-examined (on_read re-entered) before waiting for more bytes')
     ow = fx.fn1(H + '::on_write')
     run.touch(ow)
     bound = handlers.bound_member_functions(fx)
     on_read_usr = orr.usr
-    re_enter = [n for (d, fn, n) in bound.get(on_read_usr, []) if fn.usr == ow.usr and d == 'post'] + [c for c in ow.calls() if c.get('usr') == on_read_usr]
+    also = on_read.usr
+    re_enter = [n for u_ in {on_read_usr, also} for (d, fn, n) in bound.get(u_, []) if fn.usr == ow.usr and d == 'post'] + [c for c in ow.calls() if c.get('usr') in (on_read_usr, also)]
     direct_read = [c for c in ow.calls() if q.callee_name(c) == H + '::read']
     ka = [n for n in re_enter if any('keep_alive' in q.render(ow, a) and p for a, p in q.guards_at(ow, n))]
     if direct_read and not ka:
@@ -97,9 +118,24 @@ def check(run):
     run.check(len(cl) >= 2, 'R4', 'close-otherwise', H + '::on_write', ow.loc(), 'on_write does not close the connection on error / non-keep-alive', 'closes on error and when not keep-alive')
 
     run.clause('malformed input closes only that connection: the parse exception is caught in on_read and leads to close_connection')
-    catches = [n for n in orr.all_nodes() if n['k'] == 'catch']
-    okc = bool(catches) and all(any(x['k'] == 'call' and q.callee_name(x) == H + '::close_connection' for x in walk(c)) for c in catches)
-    run.check(okc and orr.d.get('fntry'), 'R4', 'parse-error-closes', H + '::on_read', orr.loc(), 'a parse failure is not caught around the whole of on_read and turned into close_connection()', 'function-try-block catches and closes the connection')
+    def protected(f_):
+        cs = [n for n in f_.all_nodes() if n['k'] == 'catch']
+        return bool(f_.d.get('fntry')) and bool(cs) and all(any(x['k'] == 'call' and q.callee_name(x) == H + '::close_connection' for x in walk(c)) for c in cs)
+    entries = []      # every way control can enter the parsing function
+    if protected(orr):
+        okc, why = True, ''
+    else:
+        okc, why = True, ''
+        callers = [cf for cf, c in fx.callers.get(orr.usr, [])]
+        boundin = [fn for (d, fn, n) in bound.get(orr.usr, [])]
+        if boundin:
+            okc, why = False, '%s parses requests outside any try-block and is bound as a completion in %s: a malformed pipelined request throws out of simulation::run(), the connection is not closed and the next client is never accepted' % (orr.norm, boundin[0].norm)
+        for cf in callers:
+            if not protected(cf):
+                okc, why = False, '%s is called from %s, which does not catch parse failures' % (orr.norm, cf.norm)
+        if not callers and not boundin:
+            okc, why = False, '%s has no protected entry' % orr.norm
+    run.check(okc, 'R4', 'parse-error-closes', orr.norm, orr.loc(), why or 'a parse failure is not caught and turned into close_connection()', 'every entry into the parsing code is inside a function-try-block that closes the connection')
     run.clause('content-length agrees with the body generated: in register_content the length handed to send_response equals the length handed to the generator')
     rc = fx.fn1(H + '::register_content')
     lams = fx.lambdas_in(rc)
